@@ -34,6 +34,11 @@ const ROLES: &[&str] = &[
     "unregistered", "alone", "plain", "voice", "halfop", "op", "protected", "founder", "ircop", "after-peers-left",
 ];
 
+// first `n` characters (never slices inside a multi-byte character)
+pub fn clip(s: &str, n: usize) -> String {
+    s.chars().take(n).collect()
+}
+
 fn long(n: usize, c: char) -> String {
     std::iter::repeat(c).take(n).collect()
 }
@@ -173,7 +178,7 @@ struct Scene {
 
 impl Scene {
     fn send(&mut self, c: usize, l: &str) -> Vec<(usize, Vec<String>)> {
-        self.log.push(format!("c{} > {}", c, if l.len() > 200 { format!("{}...({} bytes)", &l[..100], l.len()) } else { l.to_string() }));
+        self.log.push(format!("c{} > {}", c, if l.len() > 200 { format!("{}...({} bytes)", clip(l, 100), l.len()) } else { l.to_string() }));
         self.w.send_line(c, l);
         self.w.settle();
         self.collect()
@@ -186,7 +191,7 @@ impl Scene {
                 if l.contains(" ERROR") || l.contains(" 464 ") {
                     self.justified_eof[c] = true;
                 }
-                let shown = if l.len() > 160 { format!("{}...", &l[..160.min(l.len())].chars().collect::<String>()) } else { l.clone() };
+                let shown = if l.len() > 160 { format!("{}...", clip(l, 160)) } else { l.clone() };
                 self.log.push(format!("c{} < {}", c, shown));
             }
             if !ls.is_empty() {
@@ -428,7 +433,7 @@ pub fn check(c: &FuzzCase, st: &mut Stats) -> Result<(), Viol> {
             sc.send(f, &line);
             let reached_handler = sc.role != "unregistered";
             if reached_handler {
-                st.nontrivial(format!("{}|{}", desc, sc.role), || json!({"role": sc.role, "line": if line.len() > 120 { format!("{}...", &line[..120]) } else { line.clone() }}));
+                st.nontrivial(format!("{}|{}", desc, sc.role), || json!({"role": sc.role, "line": if line.len() > 120 { format!("{}...", clip(&line, 120)) } else { line.clone() }}));
             }
             st.count(&format!("verb.{}", verb));
             let may_close = verb == "QUIT" || verb == "DIE" || verb == "SQUIT" || verb == "KILL" || verb == "PASS" || verb == "USER" || verb == "NICK" || verb == "CAP";
